@@ -424,6 +424,8 @@ extern "C" void htp_verif_probe(const char *site, htp_connp_t *connp, long a, lo
 
 struct TickFreeze { uint64_t t0; TickFreeze() : t0(g_seams.ticks) { g_no_preempt++; } ~TickFreeze() { g_seams.ticks = t0; g_no_preempt--; } };   // work done on behalf of the harness is not libhtp's
 
+static void c07_request_bound(Exec *ex, htp_tx_t *tx);
+
 static int tx_cb(int hook, htp_tx_t *tx) {
     TickFreeze tf;
     Exec *ex = g_ex;
@@ -434,6 +436,7 @@ static int tx_cb(int hook, htp_tx_t *tx) {
         ex->res->live_after_tx.push_back(g_seams.live_bytes);
         ex->res->allocs_at_tx.push_back(g_seams.n_total);
     }
+    if (hook == HK_REQUEST_COMPLETE && r) c07_request_bound(ex, tx);
     if ((hook == HK_REQUEST_COMPLETE || hook == HK_RESPONSE_COMPLETE) && r) {
         int side = hook == HK_REQUEST_COMPLETE ? 0 : 1;
         r->eob_before_complete[side] = r->eob[side];
@@ -485,7 +488,9 @@ static int data_cb(int hook, htp_tx_data_t *d) {
                         if (decoding) {
                             int64_t el = s == 0 ? tx->request_entity_len : tx->response_entity_len, ml = s == 0 ? tx->request_message_len : tx->response_message_len;
                             int64_t lim = std::max<int64_t>((int64_t) cfg->compression_bomb_limit, 2048 * ml) + (int64_t) htp_verif_gzip_buf_size;
-                            if (el > lim) violate(ex, "C07", s ? "C07.response_bomb_bound" : "C07.request_bomb_bound", strfmt("tx#%d delivered=%lld compressed=%lld limit=%d", r->ordinal, (long long) el, (long long) ml, (int) cfg->compression_bomb_limit));
+                            // (the request side adds the bytes of a call to request_message_len only after it has processed them, so inside
+                            //  the callback the wire count lags by one call: that side is checked when the call returns and at REQUEST_COMPLETE)
+                            if (s == 1 && el > lim) violate(ex, "C07", "C07.response_bomb_bound", strfmt("tx#%d delivered=%lld compressed=%lld limit=%d", r->ordinal, (long long) el, (long long) ml, (int) cfg->compression_bomb_limit));
                             // (an instance in pass-through mode applies no decoding: "LZMA decompression disabled", a decoder that gave up)
                             int layers = 0, lz = 0, chain = 0; for (htp_decompressor_t *q = dc; q && chain < 100; q = q->next) { chain++; if (q->passthrough) continue; layers++; if (((htp_decompressor_gzip_t *) q)->zlib_initialized == HTP_COMPRESSION_LZMA) lz++; }
                             if (s == 1 && cfg->response_decompression_layer_limit > 0 && layers > cfg->response_decompression_layer_limit && layers > 1)
@@ -662,7 +667,16 @@ static long buffered_for(htp_connp_t *cp, int dir) {
     return (long) cp->out_buf_size + (cp->out_header ? (long) bstr_len(cp->out_header) : 0);
 }
 
+// C07 bound, request side, evaluated where request_message_len is up to date
+static void c07_request_bound(Exec *ex, htp_tx_t *tx) {
+    if (!tx || !tx->connp || !tx->connp->cfg || tx->request_content_encoding <= HTP_COMPRESSION_NONE) return;
+    int64_t el = tx->request_entity_len, ml = tx->request_message_len;
+    int64_t lim = std::max<int64_t>((int64_t) tx->connp->cfg->compression_bomb_limit, 2048 * ml) + (int64_t) htp_verif_gzip_buf_size;
+    if (el > lim) { TxRec &r = rec_for(ex, tx); violate(ex, "C07", "C07.request_bomb_bound", strfmt("tx#%d delivered=%lld compressed=%lld limit=%d", r.ordinal, (long long) el, (long long) ml, (int) tx->connp->cfg->compression_bomb_limit)); }
+}
+
 static void per_call_invariants(Exec *ex, ConnState &c, int dir, const CallRec &cr, bool is_gap, bool sticky_before, int sticky_code, bool after_close) {
+    if (dir == 0 && c.connp->in_tx) c07_request_bound(ex, c.connp->in_tx);
     RunResult &R = *ex->res;
     htp_connp_t *cp = c.connp;
     // ---- C09
